@@ -240,6 +240,30 @@ theorem mem_searchDir_l (m : Matcher) (fs : Fs) (cs : List (List AttrChar)) :
         refine ⟨ns, hw.2, ?_⟩
         rw [hp, joinPath_cons n ns (lwitness_ne m fs _ c' cs ns hw.2), path_assoc]
 
+theorem stepOK_fits (m : Matcher) (fs : Fs) (pre : Path) (c : List AttrChar) (n : Name)
+    (h : stepOK m fs pre c n) : fits m c n := by
+  simp only [stepOK, fits] at *
+  cases hk : m.kind (toPattern c) with
+  | invalid => rw [hk] at h; exact h
+  | literal s => rw [hk] at h; exact h
+  | pattern =>
+    rw [hk] at h
+    obtain ⟨ns, _, _, h1, h2, h3⟩ := h
+    exact ⟨h1, h2, h3⟩
+
+theorem lwitness_namesFit (m : Matcher) (fs : Fs) (cs : List (List AttrChar)) :
+    ∀ (c : List AttrChar) (pre : Path) (names : List Name),
+      lwitness m fs pre c cs names → namesFit m c cs names := by
+  induction cs with
+  | nil =>
+    intro c pre names h
+    match names, h with
+    | [n], h => exact stepOK_fits m fs pre c n h.1
+  | cons c' cs ih =>
+    intro c pre names h
+    match names, h with
+    | n :: ns, h => exact ⟨stepOK_fits m fs pre c n h.1, ih c' _ ns h.2⟩
+
 /-! ### with consistent oracles, listing-based witnesses are the Spec's witnesses -/
 
 theorem prefixOK_nil : PrefixOK [] := Or.inl rfl
